@@ -537,9 +537,11 @@ def run_fit_case(ctx, case):
                     ctx.discard("reference-profile-not-finite")
                     continue
                 rise = max(r - c_hat, 0.0)
-                # (iminuit only: there the walk from point to point is MINUIT's own mnprofile; the scipy adapter's walk is kafe2 code and
-                # is held to the branch that is connected to the optimum)
-                if minimizer == "iminuit" and yv - r > ptol + ptol * rise and yv - r > 5e-2:
+                # (both backends since the seed-6 sweep: for a Gaussian peak on 8 points with model-relative errors both backends, and
+                # independent refits from the optimum with the parameter fixed, agreed on -22.7226 while the reference search had jumped
+                # into a deeper, disconnected basin at -22.9027; a walk that stops short of a minimum is still reported, because the
+                # reported point must be a local minimum of the inner problem)
+                if yv - r > ptol + ptol * rise and yv - r > 5e-2:
                     if inner_problem_has_local_minimum_at(cost, p_hat, free_idx, {i: float(xv)}, sig, float(yv), 10 * (ptol + ptol * rise), seed=case["aux_seed"]):
                         ctx.discard("profile-point-on-a-second-local-minimum-of-the-inner-problem")
                         continue
